@@ -55,6 +55,7 @@ fn facets(ev: &Value, ex: &Value) -> Vec<(String, Value, Value, bool)> {
            json!(hook["fwd"].as_array().map(|v| v.iter().map(|n| n[1].clone()).collect::<Vec<_>>())
                 .unwrap_or_default()));
         eq("cur", t["cur"].clone(), st["cur"].clone());
+        eq("bound", json!(true), json!(dec(&st["cur"]) <= dec(&st["max"])));
         eq("max", t["max"].clone(), st["max"].clone());
         eq("cap", t["cap"].clone(), st["cap"].clone());
         eq("b", t["b"].clone(), hook["b"].clone());
@@ -158,6 +159,11 @@ fn main() {
     let mut per_op: std::collections::BTreeMap<String, u64> = Default::default();
     let mut ends = 0u64;
     let mut leaks = 0u64;
+    // After a step whose resulting STATE differs from TLC's, the following
+    // expectations (which assume TLC's state) say nothing; comparison resumes
+    // once the real state equals the expected one again.
+    let mut in_sync = true;
+    let mut skipped = 0u64;
 
     for line in reader.lines() {
         let line = line.unwrap();
@@ -200,6 +206,7 @@ fn main() {
 
             reg_reset();
             session = Session::new(cfg.clone());
+            in_sync = true;
             continue;
         }
 
@@ -214,9 +221,21 @@ fn main() {
         }
 
         if compare && !op["expect"].is_null() {
+            let fs = facets(&ev, &op["expect"]);
+            let state_ok = fs.iter().all(|(f, e, a, _)| {
+                !matches!(f.as_str(), "alive" | "keys" | "sizes" | "rec" | "cur" | "max" | "cap" | "b") || e == a
+            });
+            let was_in_sync = in_sync;
+            in_sync = state_ok;
+
+            if !was_in_sync {
+                skipped += 1;
+                continue;
+            }
+
             compared += 1;
 
-            for (facet, e, a, upper) in facets(&ev, &op["expect"]) {
+            for (facet, e, a, upper) in fs {
                 comparisons += 1;
                 let ok = if upper { a.as_i64().unwrap_or(i64::MAX) <= e.as_i64().unwrap_or(0) } else { e == a };
 
@@ -242,7 +261,7 @@ fn main() {
     let fin = session.finish();
     let summary = json!({"lines": line_no, "executed": executed, "compared": compared,
         "comparisons": comparisons, "mismatches": n_mismatch, "per_op": per_op,
-        "resets": ends, "end_of_life_failures": leaks, "final": fin,
+        "resets": ends, "end_of_life_failures": leaks, "skipped_out_of_sync": skipped, "final": fin,
         "hasher": cfg.hasher, "keyform": format!("{:?}", cfg.keyform)});
     println!("{}", summary);
 
